@@ -39,7 +39,14 @@ Proof. intros sc rw t l H. inversion H as [|sc0 i r t' sc' l' Hc HU' Hs Hr]. exi
    stack by delivering braces only (every lemma of this library and every level statement built on it carries it, so that
    declarations - which add names to the innermost scope - can be followed through expressions and statements) *)
 Definition NoTD (sc: list (list (option str * bool))) : Prop := sc <> [] /\ Forall (Forall (fun e => snd e = false)) sc.
-Definition SC (s s': pstate) : Prop := NoTD (scopes P s) -> NoTD (scopes P s').
+(* ... and [tot]: tokens consumed + buffered + not yet delivered - constant as long as the end of the input is not reached, which
+   is what lets a completeness theorem say "and then the input is exhausted" *)
+Definition tot (s: pstate) : nat := idx P s + length (after P s) + length (raw P s).
+Definition SC (s s': pstate) : Prop := (NoTD (scopes P s) -> NoTD (scopes P s')) /\ tot s' = tot s.
+Lemma SC_refl : forall s, SC s s.
+Proof. intros s. split; [exact (fun H => H)|reflexivity]. Qed.
+Lemma SC_trans : forall a b c, SC a b -> SC b c -> SC a c.
+Proof. intros a b c [K1 T1] [K2 T2]. split; [exact (fun H => K2 (K1 H))|congruence]. Qed.
 
 Definition Same (s s1: pstate) : Prop := before P s1 = before P s /\ idx P s1 = idx P s /\ ticks P s1 = ticks P s /\ SC s s1.
 Definition Adv (t: tok) (s s2: pstate) : Prop := before P s2 = Some t :: before P s /\ idx P s2 = S (idx P s) /\ ticks P s2 = (ticks P s + 1)%N /\ SC s s2.
@@ -54,13 +61,13 @@ Definition RanR (s s': pstate) (n: nat) : Prop :=
   idx P s' = idx P s + n /\ N.to_nat (ticks P s') + 2 <= N.to_nat (ticks P s) + 3 * n /\ SC s s'.
 
 Lemma Same_refl : forall s, Same s s.
-Proof. intros s. split; [reflexivity|split; [reflexivity|split; [reflexivity|exact (fun H => H)]]]. Qed.
+Proof. intros s. split; [reflexivity|split; [reflexivity|split; [reflexivity|apply SC_refl]]]. Qed.
 Lemma Same_trans : forall a b c, Same a b -> Same b c -> Same a c.
-Proof. intros a b c [H1 [H2 [H2' K1]]] [H3 [H4 [H4' K2]]]. split; [congruence|split; [congruence|split; [congruence|exact (fun H => K2 (K1 H))]]]. Qed.
+Proof. intros a b c [H1 [H2 [H2' K1]]] [H3 [H4 [H4' K2]]]. split; [congruence|split; [congruence|split; [congruence|exact (SC_trans _ _ _ K1 K2)]]]. Qed.
 Lemma Adv_Same : forall t a b c, Adv t a b -> Same b c -> Adv t a c.
-Proof. intros t a b c [H1 [H2 [H2' K1]]] [H3 [H4 [H4' K2]]]. split; [congruence|split; [congruence|split; [congruence|exact (fun H => K2 (K1 H))]]]. Qed.
+Proof. intros t a b c [H1 [H2 [H2' K1]]] [H3 [H4 [H4' K2]]]. split; [congruence|split; [congruence|split; [congruence|exact (SC_trans _ _ _ K1 K2)]]]. Qed.
 Lemma Same_Adv : forall t a b c, Same a b -> Adv t b c -> Adv t a c.
-Proof. intros t a b c [H1 [H2 [H2' K1]]] [H3 [H4 [H4' K2]]]. split; [congruence|split; [congruence|split; [congruence|exact (fun H => K2 (K1 H))]]]. Qed.
+Proof. intros t a b c [H1 [H2 [H2' K1]]] [H3 [H4 [H4' K2]]]. split; [congruence|split; [congruence|split; [congruence|exact (SC_trans _ _ _ K1 K2)]]]. Qed.
 
 (* delivering an item keeps a typedef-free scope stack typedef-free *)
 Lemma cl_notd : forall sc i t sc', cl sc i = Some (t, sc') -> NoTD sc -> NoTD sc'.
@@ -105,7 +112,7 @@ Proof.
       unfold bind at 1. rewrite Hd. unfold bind at 1. unfold get at 1. cbn [after]. rewrite last_is_none_snoc. reflexivity.
     + cbn [after]. rewrite Ha. reflexivity.
     + exists [t], l. cbn [after scopes raw]. rewrite Ha. split; [reflexivity|split; [reflexivity|exact HU']].
-    + split; [reflexivity|split; [reflexivity|split; [reflexivity|intros HN; exact (cl_notd _ _ _ _ Hc HN)]]].
+    + split; [reflexivity|split; [reflexivity|split; [reflexivity|split; [intros HN; exact (cl_notd _ _ _ _ Hc HN)|unfold tot; cbn [idx after raw]; rewrite ?Hr, ?Ha, ?app_length, ?map_length; cbn [length map]; lia]]]].
   - cbn [app] in Hl. injection Hl as E Hl. subst t0. exists s, (map Some a). split; [|split; [|split]].
     + unfold fill. cbn [fill_aux]. unfold bind at 1. unfold get at 1. rewrite Ha. reflexivity.
     + rewrite Ha. reflexivity.
@@ -135,7 +142,8 @@ Proof.
   - unfold advance, next_tok. unfold bind at 1. unfold bind at 1. rewrite Hf. rewrite Ha. reflexivity.
   - rewrite Ha in Ha2. destruct a as [|t0 a]; [discriminate|]. cbn [map] in Ha2. injection Ha2 as E1 E2.
     cbn [app] in Hl. injection Hl as _ Hl. exists a, l2. cbn [after scopes raw]. split; [exact E2|split; [exact Hl|exact HU]].
-  - split; [cbn [before]; congruence|split; [cbn [idx]; congruence|split; [cbn [ticks]; congruence|exact HS4]]].
+  - split; [cbn [before]; congruence|split; [cbn [idx]; congruence|split; [cbn [ticks]; congruence|]]].
+    destruct HS4 as [K4 T4]. split; [exact K4|]. rewrite <- T4. unfold tot. cbn [idx after raw]. rewrite Ha. cbn [length]. lia.
 Qed.
 
 Lemma accept_hit : forall s t l k, Up s (t :: l) -> kind_eqb (tk t) k = true ->
@@ -179,7 +187,7 @@ Proof.
         unfold bind at 1. rewrite Hd2. unfold bind at 1. unfold get at 1. cbn [after]. rewrite last_is_none_snoc. reflexivity.
       + unfold sA. cbn [after]. rewrite Ha. reflexivity.
       + exists [t1; t2], l. unfold sA. cbn [after scopes raw]. rewrite Ha. split; [reflexivity|split; [reflexivity|exact HU2]].
-      + split; [reflexivity|split; [reflexivity|split; [reflexivity|intros HN; exact (cl_notd _ _ _ _ Hc2 (cl_notd _ _ _ _ Hc HN))]]].
+      + split; [reflexivity|split; [reflexivity|split; [reflexivity|split; [intros HN; exact (cl_notd _ _ _ _ Hc2 (cl_notd _ _ _ _ Hc HN))|unfold tot; unfold sA; cbn [idx after raw]; rewrite ?Hr, ?Ha, ?app_length, ?map_length; cbn [length map]; lia]]]].
     - cbn [app] in Hl. injection Hl as E Hl. subst a1. subst l2. destruct (UpR_inv _ _ _ _ HU) as [i [r [sc' [Hr [Hc HU']]]]].
       destruct (deliver1_plain s i r t2 sc' Hr Hc) as [fa Hd].
       eexists. exists []. split; [|split; [|split]].
@@ -188,7 +196,7 @@ Proof.
         unfold bind at 1. unfold get at 1. cbn [after]. rewrite Ha. cbn [map app length Nat.ltb Nat.leb]. reflexivity.
       + cbn [after]. rewrite ?Ha. reflexivity.
       + exists [t1; t2], l. cbn [after scopes raw]. rewrite ?Ha. split; [reflexivity|split; [reflexivity|exact HU']].
-      + split; [reflexivity|split; [reflexivity|split; [reflexivity|intros HN; exact (cl_notd _ _ _ _ Hc HN)]]].
+      + split; [reflexivity|split; [reflexivity|split; [reflexivity|split; [intros HN; exact (cl_notd _ _ _ _ Hc HN)|unfold tot; cbn [idx after raw]; rewrite ?Hr, ?Ha, ?app_length, ?map_length; cbn [length map]; lia]]]].
     - cbn [app] in Hl. injection Hl as E1 E2 Hl. subst a1 a2. exists s, (map Some a). split; [|split; [|split]].
       + unfold fill. cbn [fill_aux]. unfold bind at 1. unfold get at 1. rewrite Ha. reflexivity.
       + rewrite Ha. reflexivity.
@@ -209,7 +217,7 @@ Proof.
   - reflexivity.
   - reflexivity.
   - reflexivity.
-  - exact (fun H => H).
+  - split; [exact (fun H => H)|]. unfold tot. cbn [idx after raw]. rewrite Hi. cbn [length]. lia.
 Qed.
 
 Lemma mark_eq : forall s, mark P s = Ok (idx P s, s).
@@ -221,13 +229,43 @@ Proof. intros A B m f s a s1 H. unfold bind. rewrite H. reflexivity. Qed.
 (* an initial state sees its items as they are *)
 Lemma Up_initial : forall (s: pstate) l, after P s = [] -> UpR (scopes P s) (raw P s) l -> Up s l.
 Proof. intros s l Ha HU. exists [], l. rewrite Ha. split; [reflexivity|split; [reflexivity|exact HU]]. Qed.
+(* ---- the end of the input ---- *)
+(* [UpEnd s l]: the parser will see exactly l and then the end of the input *)
+Definition UpEnd (s: pstate) (l: list tok) : Prop := Up s l /\ tot s = idx P s + length l.
+Definition AtEOF (s: pstate) : Prop := exists r, after P s = None :: r.
+
+Lemma UpEnd_Up : forall s l, UpEnd s l -> Up s l.
+Proof. intros s l [H _]. exact H. Qed.
+
+(* after a run that consumed n tokens without reaching the end, what is left is left *)
+Lemma UpEnd_ran : forall s s' le rest, UpEnd s (le ++ rest) -> Up s' rest -> idx P s' = idx P s + length le -> tot s' = tot s -> UpEnd s' rest.
+Proof. intros s s' le rest [_ Ht] HU Hi Htt. split; [exact HU|]. rewrite Htt, Ht, Hi, app_length. lia. Qed.
+
+Lemma peek_end : forall s, UpEnd s [] -> exists s1, peek P s = Ok (None, s1) /\ AtEOF s1 /\ scopes P s1 = scopes P s.
+Proof.
+  intros s [[a [l2 [Ha [Hl HU]]]] Ht]. destruct a as [|? ?]; [|discriminate]. destruct l2 as [|? ?]; [|discriminate].
+  cbn [map] in Ha. unfold tot in Ht. rewrite Ha in Ht. cbn [length] in Ht. destruct (raw P s) as [|i r] eqn:Er; [|cbn [length] in Ht; lia].
+  eexists. split; [|split].
+  - unfold peek, peek_k. unfold bind at 1. unfold fill. cbn [fill_aux]. unfold bind at 1. unfold get at 1. rewrite Ha. cbn [length Nat.ltb Nat.leb].
+    unfold bind at 1. unfold deliver1. rewrite Er. unfold bind at 1. unfold get at 1. cbn [after]. rewrite Ha. cbn [app]. unfold last_is_none. cbn [last_opt].
+    unfold ret at 1. unfold bind at 1. unfold get at 1. cbn [after nth_error Nat.pred]. reflexivity.
+  - exists []. reflexivity.
+  - reflexivity.
+Qed.
+
+Lemma peek_eof : forall s, AtEOF s -> peek P s = Ok (None, s).
+Proof.
+  intros s [r Ha]. unfold peek, peek_k. unfold bind at 1. unfold fill. cbn [fill_aux]. unfold bind at 1. unfold get at 1. rewrite Ha. cbn [length Nat.ltb Nat.leb].
+  unfold ret at 1. unfold bind at 1. unfold get at 1. rewrite Ha. reflexivity.
+Qed.
 End SL.
 
 (* collect the cost facts in the context and finish by arithmetic *)
 Ltac sc_tac :=
-  intros;
-  repeat match goal with H: ?A -> _, H2: ?A |- _ => specialize (H H2) end;
-  try assumption; tauto.
+  repeat match goal with H: _ /\ _ |- _ => destruct H end;
+  first [ lia
+        | (split; [intros; repeat match goal with H: ?A -> _, H2: ?A |- _ => specialize (H H2) end; try assumption; tauto | lia])
+        | (intros; repeat match goal with H: ?A -> _, H2: ?A |- _ => specialize (H H2) end; try assumption; tauto) ].
 Ltac cost_tac :=
   unfold Ran, RanR, Same, Adv, SC in *;
   repeat match goal with H: _ /\ _ |- _ => destruct H end;
